@@ -138,6 +138,34 @@ def generate(tier, rng):
             fams.append(dict(stream="exact", family="C05", fixed="target", variants=vs))
     fams += lifetime_families(tier)
     fams += stack_split_families(tier)
+    fams += int_target_families(tier)
+    return fams
+
+
+def int_target_families(tier):
+    """a pre-declared target whose whole numbers are stored in an integer array, assigned from a source with non-whole values:
+    whatever numpy makes of that (it truncates), it must not depend on the storage order of the source or of the target
+    (variants compared with each other only; not sent to the model, which has no integer arrays)"""
+    fams = []
+    uni = mk_universe((2, 2, 3), "abc")
+    L = list(uni.keys())
+    for xs in [["a", "b"], ["a", "c"], ["a", "b", "c"]]:
+        x0 = dict(dims=xs, values=[3 * i + 1 for i in range(nelem(uni, xs))], dtype="int")
+        extra = [l for l in L if l not in xs][:1]
+        for sd in (xs, xs + extra):
+            s0 = dict(dims=sd, values=[str(Fraction(2 * j + 1, 2)) for j in range(nelem(uni, sd))])
+            for key in (dict(form="ellipsis"), dict(form="dict", entries=[["L", xs[0], ["single", uni[xs[0]]["items"][1]]]])):
+                vs = []
+                for p in perms(xs):
+                    for ps in perms(sd, 6):
+                        rhs_arr = permute_desc(uni, s0, ps)
+                        if key["form"] == "dict":
+                            rhs_arr = permute_desc(uni, dict(dims=[l for l in sd if l != xs[0]],
+                                                             values=[str(Fraction(2 * j + 1, 2)) for j in range(nelem(uni, [l for l in sd if l != xs[0]]))]),
+                                                   [l for l in ps if l != xs[0]])
+                        vs.append(dict(stream="exact", uni=uni, arr=permute_desc(uni, x0, p),
+                                       steps=[dict(op="set", key=key, rhs=dict(kind="arr", arr=rhs_arr))]))
+                fams.append(dict(stream="exact", coq=False, family="C05", agree_only=True, fixed="target", variants=vs))
     return fams
 
 
@@ -289,7 +317,7 @@ def oracle(case, obs):
                                     f"{float(Fraction(*x)):.9g} vs {float(Fraction(*y)):.9g} ({v['lifetime']['mean']['dims']})")
         return None
     # each variant satisfies the operation's own specification (incl. the documented dimension order)
-    for v, o in zip(case["variants"], obs["obs"]):
+    for v, o in zip(case["variants"], obs["obs"]) if not case.get("agree_only") else []:
         r = m.oracle(v, o)
         if r:
             return f"[{case['family']}] variant {_vdesc(case, v)}: {r}"
